@@ -26,6 +26,7 @@ type FileSpec struct {
 	Text string `json:"text,omitempty"`
 	Dir  bool   `json:"dir,omitempty"`
 	Mode int    `json:"mode,omitempty"`
+	Link string `json:"link,omitempty"` // a symbolic link to this target (which need not exist)
 }
 
 type RunSpec struct {
@@ -43,6 +44,7 @@ type RunSpec struct {
 	Expect       string            `json:"expect,omitempty"`       // relation to an earlier run the specification must check
 	ExpectRun    int               `json:"expectRun,omitempty"`    // which earlier run (1-based; 0 = the previous one)
 	ShadowPrev   string            `json:"shadowPrev,omitempty"`   // -rapid.failfile=<another directory>/<base name of the file saved by the previous run>, with this (unusable) content
+	StashDir     string            `json:"stashDir,omitempty"`     // name of the stash directory (default "stash")
 	StashPrev    bool              `json:"stashPrev,omitempty"`    // move the file saved by the previous run out of testdata (to ./stash) first
 	FailfileRun  int               `json:"failfileRun,omitempty"`  // -rapid.failfile=<file saved by run k> (after stashing, its new place)
 	FuzzFrom     []string          `json:"fuzzFrom,omitempty"`     // extra fuzz inputs: "recorded" / "pruned" words of the last recording made in an earlier run
@@ -201,6 +203,10 @@ func writeFiles(files []FileSpec) {
 			continue
 		}
 		_ = os.MkdirAll(filepath.Dir(fs.Path), 0o775)
+		if fs.Link != "" {
+			_ = os.Symlink(fs.Link, fs.Path)
+			continue
+		}
 		data := []byte(fs.Text)
 		if fs.Hex != "" {
 			data, _ = hex.DecodeString(fs.Hex)
@@ -273,8 +279,12 @@ func RunScenario(t *testing.T, rec *Recorder, sc *Scenario) {
 	for i := range runs {
 		run := &runs[i]
 		if run.StashPrev && prevFile != "" {
-			_ = os.MkdirAll(filepath.Join(dir, "stash"), 0o775)
-			dst := filepath.Join(dir, "stash", filepath.Base(prevFile))
+			sd := run.StashDir
+			if sd == "" {
+				sd = "stash"
+			}
+			_ = os.MkdirAll(filepath.Join(dir, sd), 0o775)
+			dst := filepath.Join(dir, sd, filepath.Base(prevFile))
 			if err := os.Rename(prevFile, dst); err == nil {
 				savedFiles[i] = dst
 				prevFile = dst
